@@ -64,6 +64,9 @@ def obligation_name(f):
     if lab and not lab.startswith('prelude:'):
         if cls == 'pre':
             return '%s#pre[%s]@%s' % (fn, lab, f.get('site_text', '')[:80])
+        if cls == 'assert':
+            m = re.search(r'alloc_bounded\(\((.*?)\) as int', f.get('site_text', ''))
+            return '%s#%s@%s' % (fn, lab, m.group(1) if m else f.get('site_text', '')[:60])
         return '%s#%s' % (fn, lab)
     if cls == 'pre':
         return '%s#pre(%s)@%s' % (fn, (lab or '')[8:] or f.get('clause_text', '')[:60], f.get('site_text', '')[:80])
@@ -130,6 +133,11 @@ def decide(prop: str, vres: dict, kani: dict, tier: str, seed: int, t0: float, m
                 obligations.append('%s#requires[%s](at every call site)' % (f['path'], lab))
                 fns_serving.setdefault(f['path'], {'file': f['file'], 'lines': [f['line'], f.get('end_line', f['line'])],
                                                    'labels': [], 'classes': [], 'external': f.get('external', False)})
+    # F5 allocation sites are obligations of C08
+    if prop == 'C08':
+        for a in rep.get('alloc_sites', []):
+            obligations.append('%s#C08.alloc-bound@%s' % (a['fn'], a['expr']))
+            fns_serving.setdefault(a['fn'], {'file': a['file'], 'lines': [a['line'], a['line']], 'labels': ['C08.alloc-bound'], 'classes': [], 'external': False})
     # --- failures
     viol, known_hits, uncovered = [], [], []
     failed_obls = set()
